@@ -517,7 +517,9 @@ def _files_lit(files) -> str:
     return coq_list(f'({coq_str(n)}, {coq_bytes(b)})' for n, b in files)
 
 
-def corr_backends(ck: Ck, root: str) -> None:
+def corr_backends(ck: Ck, root: str, pool):
+    """Builds the cases on the real backends (main thread, guarded), starts their evaluation by the model on `pool`
+    and returns the function that collects the results - the coqc processes run while the caller goes on."""
     n = ck.budget(28, 400)
     cases = []
     for i in range(n):
@@ -620,23 +622,28 @@ def corr_backends(ck: Ck, root: str) -> None:
                 '| k => l3_eqb (obs k (fst pl) (snd pl) (cfg_of k) (snd kf) (fst qf) (snd qf)) e end) 0 ' + lit)
         return lo, ck.coq_eval(IMPORTS, [expr], name=f'backends{lo}', preamble=PRE)
 
-    for lo, vals in _parallel(batch, range(0, len(cases), 45)):
-        if vals is None:
-            ck.obligation('correspondence:backends', False, 'model could not be evaluated')
-            ck.tie_broken.append('correspondence backends: model evaluation failed')
-            return
-        bad += [lo + i for i in parse_coq_N_list(vals[0])]
-    bad.sort()
-    ck.extra['corr_backends_coq_s'] = round(time.time() - _t0, 1)
-    ck.obligation('correspondence:backends', not bad,
-                  f'{len(cases)} (backend, file set, queries, folders) cases: generated model (vm_compute) vs real '
-                  f'Virtual/Zip/VPK/Raw file systems: {len(bad)} disagreements')
-    if bad:
-        ck.tie_broken.append('correspondence backends (SM/FsChain.v over Gen/FsWalk_gen.v vs srctools.filesys)')
-        ck.extra['backend_disagreement'] = min((cases[i][1] for i in bad), key=lambda d: len(repr(d)))
+    futs = [pool.submit(batch, lo) for lo in range(0, len(cases), 45)]
+
+    def finish() -> None:
+        for f in futs:
+            lo, vals = f.result()
+            if vals is None:
+                ck.obligation('correspondence:backends', False, 'model could not be evaluated')
+                ck.tie_broken.append('correspondence backends: model evaluation failed')
+                return
+            bad.extend(lo + i for i in parse_coq_N_list(vals[0]))
+        bad.sort()
+        ck.extra['corr_backends_coq_s'] = round(time.time() - _t0, 1)
+        ck.obligation('correspondence:backends', not bad,
+                      f'{len(cases)} (backend, file set, queries, folders) cases: generated model (vm_compute) vs real '
+                      f'Virtual/Zip/VPK/Raw file systems: {len(bad)} disagreements')
+        if bad:
+            ck.tie_broken.append('correspondence backends (SM/FsChain.v over Gen/FsWalk_gen.v vs srctools.filesys)')
+            ck.extra['backend_disagreement'] = min((cases[i][1] for i in bad), key=lambda d: len(repr(d)))
+    return finish
 
 
-def corr_chain(ck: Ck, root: str) -> None:
+def corr_chain(ck: Ck, root: str, pool):
     from srctools.filesys import FileSystemChain
     n = ck.budget(40, 400)
     cases = []
@@ -744,19 +751,24 @@ def corr_chain(ck: Ck, root: str) -> None:
                 'l3_eqb (chain_obs (fst (fst c)) (fst (snd (fst c))) (snd (snd (fst c)))) (snd c)) 0 ' + lit)
         return lo, ck.coq_eval(IMPORTS, [expr], name=f'chain{lo}', preamble=PRE)
 
-    for lo, vals in _parallel(batch, range(0, len(cases), 40)):
-        if vals is None:
-            ck.obligation('correspondence:chain', False, 'model could not be evaluated')
-            ck.tie_broken.append('correspondence chain: model evaluation failed')
-            return
-        bad += [lo + i for i in parse_coq_N_list(vals[0])]
-    bad.sort()
-    ck.obligation('correspondence:chain', not bad,
-                  f'{len(cases)} chains (1-4 members over Virtual/Zip/VPK, prefixes, priority flags): generated model vs '
-                  f'FileSystemChain chain[q] / q in chain / open_bin(q) / walk_folder / walk_folder_repeat: {len(bad)} disagreements')
-    if bad:
-        ck.tie_broken.append('correspondence chain (SM/FsChain.v chain_get/chain_walk vs srctools.filesys.FileSystemChain)')
-        ck.extra['chain_disagreement'] = min((cases[i][1] for i in bad), key=lambda d: len(repr(d)))
+    futs = [pool.submit(batch, lo) for lo in range(0, len(cases), 40)]
+
+    def finish() -> None:
+        for f in futs:
+            lo, vals = f.result()
+            if vals is None:
+                ck.obligation('correspondence:chain', False, 'model could not be evaluated')
+                ck.tie_broken.append('correspondence chain: model evaluation failed')
+                return
+            bad.extend(lo + i for i in parse_coq_N_list(vals[0]))
+        bad.sort()
+        ck.obligation('correspondence:chain', not bad,
+                      f'{len(cases)} chains (1-4 members over Virtual/Zip/VPK, prefixes, priority flags): generated model vs '
+                      f'FileSystemChain chain[q] / q in chain / open_bin(q) / walk_folder / walk_folder_repeat: {len(bad)} disagreements')
+        if bad:
+            ck.tie_broken.append('correspondence chain (SM/FsChain.v chain_get/chain_walk vs srctools.filesys.FileSystemChain)')
+            ck.extra['chain_disagreement'] = min((cases[i][1] for i in bad), key=lambda d: len(repr(d)))
+    return finish
 
 
 # ------------------------------------------------------------------------------------------------ oracle: single backends
@@ -1755,23 +1767,33 @@ def run(ck: Ck) -> None:
         obs['vpk_open_bin_reads_whole_file'] = 'cexpr_whole false vpk_open_bin_content'
         obs['vpk_open_str_reads_whole_file'] = 'cexpr_whole false vpk_open_str_content'
         obs['vpk_reader_returns_preload_and_exact_rest'] = 'rexpr_whole None false vpk_reader'
-        ck.instance_obligations(IMPORTS, obs)
+        for oname, ok in ck.instance_obligations(IMPORTS, obs).items():
+            if not ok:      # a decisive code shape is not the sound one: search on the escalated budgets
+                ck.tie_broken.append(f'instance obligation {oname} does not hold at the generated configuration')
         _td = time.time()
-        # the composition theorem instantiated at the generated configuration (type-checks only if today's chain
-        # de-duplicates by skipping, lists prefix-relative names and every backend form is sound)
-        rc, out = fut_compose.result()
-        ck.obligation('instance-theorem:chain_walk_lookup_closed', rc == 0,
-                      'c19_chain_walk_lookup_closed, c19_chain_walk_every_entry_spec and c19_chain_walk_with_directory_members (raw_walk_relmode, raw_walk_ops) applied to chain_walk_mode chain_dedup_mode '
-                      'chain_relmode chain_dedup_ops over members built from virtual_cfg / zip_cfg / vpk_cfg' + ('' if rc == 0 else ': ' + out[-400:]))
-        rc, out = fut_forms.result()
-        ck.obligation('instance-theorem:chain_exists_and_vpk_bytes', rc == 0,
-                      'c19_chain_exists_agrees_backends at chain_exists_mode, c19_vpk_open_same_bytes at vpk_open_bin_content / '
-                      'vpk_open_str_content, c19_chain_every_form_spec (every lookup form of a chain = the specification) over '
-                      'virtual_cfg / zip_cfg / vpk_cfg, c19_vpk_open_through_reader at vpk_reader, c19_chain_with_directory_members_spec at raw_get_ops, c19_chain_history_spec at chain_add_guard / chain_prio_action / chain_plain_action, c19_raw_walk_lists_stored_names at raw_walk_relmode' + ('' if rc == 0 else ': ' + out[-400:]))
+        def collect_instance_theorems() -> None:
+            # the composition theorem instantiated at the generated configuration (type-checks only if today's chain
+            # de-duplicates by skipping, lists prefix-relative names and every backend form is sound)
+            rc, out = fut_compose.result()
+            ck.obligation('instance-theorem:chain_walk_lookup_closed', rc == 0,
+                          'c19_chain_walk_lookup_closed, c19_chain_walk_every_entry_spec and c19_chain_walk_with_directory_members (raw_walk_relmode, raw_walk_ops) applied to chain_walk_mode chain_dedup_mode '
+                          'chain_relmode chain_dedup_ops over members built from virtual_cfg / zip_cfg / vpk_cfg' + ('' if rc == 0 else ': ' + out[-400:]))
+            if rc != 0:
+                ck.tie_broken.append('instance theorem chain_walk_lookup_closed does not check at the generated configuration')
+            rc, out = fut_forms.result()
+            if rc != 0:
+                ck.tie_broken.append('instance theorem chain_exists_and_vpk_bytes does not check at the generated configuration')
+            ck.obligation('instance-theorem:chain_exists_and_vpk_bytes', rc == 0,
+                          'c19_chain_exists_agrees_backends at chain_exists_mode, c19_vpk_open_same_bytes at vpk_open_bin_content / '
+                          'vpk_open_str_content, c19_chain_every_form_spec (every lookup form of a chain = the specification) over '
+                          'virtual_cfg / zip_cfg / vpk_cfg, c19_vpk_open_through_reader at vpk_reader, c19_chain_with_directory_members_spec at raw_get_ops, c19_chain_history_spec at chain_add_guard / chain_prio_action / chain_plain_action, c19_raw_walk_lists_stored_names at raw_walk_relmode' + ('' if rc == 0 else ': ' + out[-400:]))
         import time as _t
-        t0 = _t.time(); corr_backends(ck, root); t1 = _t.time(); corr_chain(ck, root); t2 = _t.time()
+        # the real backends / chains are run here (main thread, guarded); the model's answers are computed by coqc
+        # processes on their own pool while the canonical-form validation and the search go on
+        cpool = ThreadPoolExecutor(max_workers=4)
+        t0 = _t.time(); fin_backends = corr_backends(ck, root, cpool); t1 = _t.time(); fin_chain = corr_chain(ck, root, cpool); t2 = _t.time()
         ck.extra['stage_seconds'] = {'translate_build': round(_tb - _ta, 1), 'instance_obligations': round(_td - _tc, 1),
-                                     'instance_theorems_wait': round(t0 - _td, 1), 'corr_backends': round(t1 - t0, 1), 'corr_chain': round(t2 - t1, 1)}
+                                     'corr_backends_cases': round(t1 - t0, 1), 'corr_chain_cases': round(t2 - t1, 1)}
     import time as _t
     if ok_t:
         t3 = _t.time()
@@ -1784,6 +1806,19 @@ def run(ck: Ck) -> None:
         ck.extra.setdefault('stage_seconds', {})['canonical_validation'] = round(_t.time() - t3, 1)
     t3 = _t.time(); search(ck, root); ck.extra.setdefault('stage_seconds', {})['search'] = round(_t.time() - t3, 1)
     if built:
+        _te = time.time()
+        n_ties = len(ck.tie_broken)
+        collect_instance_theorems()
+        ck.extra['stage_seconds']['instance_theorems_wait'] = round(time.time() - _te, 1)
+        _te = time.time()
+        fin_backends()
+        fin_chain()
+        cpool.shutdown()
+        ck.extra['stage_seconds']['correspondence_wait'] = round(time.time() - _te, 1)
+        if len(ck.tie_broken) > n_ties and not ck.violations:
+            # the model and the code disagree and the search (which ran meanwhile on the normal budget) found no failing
+            # input: search again, now on the escalated budgets
+            t3 = _t.time(); search(ck, root); ck.extra['stage_seconds']['search_escalated'] = round(_t.time() - t3, 1)
         _te = time.time()
         fut_thm.result()
         pool.shutdown()
